@@ -4,6 +4,7 @@
 import PatchModel.Spec.Script
 import PatchModel.Model.Stream
 import PatchModel.Lemmas.Render
+import PatchModel.Model.Parse
 namespace PatchModel.C14
 open PatchModel PatchModel.Render
 
@@ -125,5 +126,49 @@ theorem spliceAt_sources (file : List Line) (c : Nat) (pls : List (Hunk × Nat))
     · rcases ih _ o ho with h1 | ⟨hp', hm, h1⟩
       · exact .inl h1
       · exact .inr ⟨hp', List.mem_cons_of_mem _ hm, h1⟩
+
+/-! ### the lines of a patch -/
+
+/-- **`get_line` never hands out a line without newline**: the last line of a patch text whose own final newline went
+    missing is a line like any other (`.lf`); only the `\ No newline at end of file` marker makes a hunk line `.none`
+    (C13 `none_only_by_marker`) -/
+theorem getLine_never_none (p : Parser) (l : Line) (p' : Parser) (h : p.getLine = (some l, p')) :
+    l.newline ≠ .none := by
+  unfold Parser.getLine at h
+  split at h
+  · simp at h
+  · rename_i l0 s' _
+    simp only [Prod.mk.injEq, Option.some.injEq] at h
+    obtain ⟨rfl, _⟩ := h
+    split
+    · simp
+    · assumption
+
+/-- what is handed out is the line of the text: same content, same terminator unless there was none -/
+theorem getLine_line (p : Parser) (l : Line) (p' : Parser) (h : p.getLine = (some l, p')) :
+    ∃ l0 r, p.s.rest = l0 :: r ∧ p'.s.rest = r ∧ l.content = l0.content ∧
+      l.newline = (if l0.newline = .none then .lf else l0.newline) := by
+  unfold Parser.getLine PStream.getLine at h
+  split at h <;> rename_i heq
+  · simp at h
+  · rename_i l0 s'
+    simp only [Prod.mk.injEq, Option.some.injEq] at h
+    obtain ⟨rfl, rfl⟩ := h
+    split at heq
+    · simp at heq
+    · split at heq
+      · simp at heq
+      · split at heq
+        · simp at heq
+        · rename_i a r hr
+          refine ⟨a, r, hr, ?_⟩
+          split at heq <;>
+            (simp only [Prod.mk.injEq, Option.some.injEq] at heq
+             obtain ⟨rfl, rfl⟩ := heq
+             refine ⟨rfl, ?_, ?_⟩ <;> split <;> simp_all)
+
+/-- the last line of a text that does not end in a newline is read as an LF terminated line, and the stream has seen its end -/
+theorem getLine_last_unterminated (c : Bytes) (n : Nat) :
+    Parser.getLine ⟨⟨[⟨c, .none⟩], false, false⟩, n⟩ = (some ⟨c, .lf⟩, ⟨⟨[], true, false⟩, n + 1⟩) := rfl
 
 end PatchModel.C14
